@@ -23,6 +23,110 @@ def fr(x):
     return F(x)
 
 
+# The source fragments Generated/GridSrc.lean is lifted from, as harness/lifters/grid.py reports them for the tree
+# the Fraction oracle (redoracle.grid_lambdas, Problem.*) was written against.  While they are unchanged a
+# model/oracle disagreement is a bug of this machinery (HARNESS-ERROR); once one of them differs the Lean model
+# follows the edited source, so a model/oracle disagreement is a BROKEN TIE and is reported as a correspondence
+# problem naming the fragment (exit 1).
+PINNED = {
+    "atEnd": "index == self.dim",
+    "lastForced": "index == self.dim - 1 and self.force_L1_norm",
+    "lastValues": "[-max_val, max_val] if self.neg_allowed[index] and max_val > 0 else [max_val]",
+    "rangeValues": "min_val = -max_val if self.neg_allowed[index] else 0; values = range(min_val, max_val + 1)",
+    "nextIndex": "index + 1",
+    "budget": "max_val - abs(current_value)",
+    "startIndex": "0",
+    "defaultOffset": "pd.Series(0, index=pos_basis.index)",
+    "trueDim": "self.dim - 1 if self.force_L1_norm else self.dim",
+    "nextUnits": "n_units + 1",
+    "estimate": "(float(grid_size) / 2.0 ** neg_allowed.sum()) ** (1.0 / true_dim) - 1",
+    "estimateClip": "if n_units < 0:     n_units = 0",
+    "enough": "len(int_grid) >= grid_size",
+    "truncate": "self.accumulator[:grid_size]",
+    "scale": "float(grid_limit) / n_units",
+    "negOf": "neg_coefs = -pos_coefs.copy()",
+    "posClip": "pos_coefs[pos_coefs < 0] = 0.0",
+    "negClip": "neg_coefs[neg_coefs < 0] = 0.0",
+    "negFromClipped": False,
+    "basisMap": "pos_basis.dot(pos_coefs) + neg_basis.dot(neg_coefs)",
+    "offset": "_grid.add(self.grid_offset, axis='index')",
+    "objectiveWeight": "1.0 - constraint_weight",
+    "combine": "if not objective_in_the_span:     weights = weights + objective.signed_weights()",
+    "relabelY": "y_reduction = 1 * (weights > 0)",
+    "relabelW": "weights = weights.abs()",
+    "useDummy": "len(y_reduction_unique) == 1",
+    "loss": ("(1.0 - self.constraint_weight) * self.objectives_[i] + self.constraint_weight * self.gammas_[grid.columns[i]].max()",
+             "self.objective_weight * self.objectives_[i] + self.constraint_weight * self.gammas_[grid.columns[i]].max()"),
+    "gammaAgg": "max",
+    "bestIdx": "losses.index(min(losses))",
+    "delegation": "self.predictors_[self.best_idx_]",
+}
+_LIFTED = {}
+
+
+def lifted_meta():
+    if "m" not in _LIFTED:
+        from .. import core, translate
+        try:
+            _LIFTED["m"] = translate.run(core.REPO).get("GridSrc.lean", {})
+            _LIFTED["v"] = sorted(k for k in PINNED if not (
+                _LIFTED["m"].get(k) in PINNED[k] if isinstance(PINNED[k], tuple) else _LIFTED["m"].get(k) == PINNED[k]))
+        except translate.Untranslatable as e:
+            _LIFTED["m"] = {}
+            _LIFTED["v"] = ["untranslatable: " + str(e)[:160]]
+    return _LIFTED["m"]
+
+
+def lifted_changes():
+    """names of the lifted fragments that differ from PINNED (cached per process)"""
+    lifted_meta()
+    return _LIFTED["v"]
+
+
+def mo_kind():
+    """kind of a model-vs-oracle disagreement: our bug on the pinned source, a broken tie otherwise"""
+    return "correspondence" if lifted_changes() else "harness"
+
+
+def mo_rel(rel):
+    ch = lifted_changes()
+    return rel + (f" [lifted fragment(s) changed: {', '.join(ch)}]" if ch else "")
+
+
+class _Dim:
+    def __init__(self, dim, force):
+        self.dim, self.force_L1_norm = dim, force
+
+
+def float_estimate(neg_allowed, force, grid_size):
+    """The initial n_units the SOURCE computes, obtained by evaluating the lifted expressions in binary64 exactly as
+    the source does (`true_dim`, the root expression, int(np.floor(.)), the clip at 0).  None when the lifted text
+    is unavailable or not evaluable."""
+    meta = lifted_meta()
+    try:
+        true_dim = eval(meta["trueDim"], {}, {"self": _Dim(len(neg_allowed), force)})  # noqa: S307 (lifted source text)
+        if true_dim < 1:
+            return None
+        n = eval(meta["estimate"], {"np": np}, {"grid_size": grid_size, "neg_allowed": np.array(neg_allowed, dtype=bool),
+                                                "true_dim": true_dim, "float": float})
+        n = int(np.floor(n))
+        return n if n >= 0 else 0
+    except Exception:  # noqa: BLE001
+        return None
+
+
+def offset_of(case, keys):
+    """grid_offset entries for the constraint index entries `keys` (lists of str), assigned in sorted key order"""
+    offs = case.get("offset")
+    if not offs:
+        return None
+    order = sorted(range(len(keys)), key=lambda i: keys[i])
+    out = [None] * len(keys)
+    for rank, i in enumerate(order):
+        out[i] = F(offs[rank % len(offs)])
+    return out
+
+
 def mk_moment(case):
     import fairlearn.reductions as red
     eps = float(F(case["eps"]))
@@ -74,15 +178,24 @@ def labelings(case):
 @register
 class CHECK(Check):
     pid = "C09"
-    technique = ("Lean 4 theorems over the Grid model (integer lattice, scaling, basis map, arg-min, relabelling) + "
-                 "compiled-driver correspondence with GridSearch.fit/predict driven through an exact recording learner")
-    level_text = ("Theorems (all inputs): the integer grid is exactly the sign-restricted L1 ball/sphere (sound+complete), "
-                  "duplicate-free, strictly growing in the radius (termination of the while-True search, least radius), "
-                  "cube bound justifying the float starting point; the mapped multipliers are grid_size many, non-negative, "
-                  "of L1 norm <= grid_limit, and pairwise distinct when every basis column is a distinct unit vector; "
-                  "first-arg-min spec; weighted 0/1 error on relabelled data = const - sum w_i h_i and the resulting arg-min "
-                  "equivalence. Tie: GridSearch on generated data sets vs the compiled model (lambda_vecs_, best_idx_, "
-                  "relabelling seen by the learner) and a Fraction oracle of every clause of the property.")
+    technique = ("Lean 4 theorems over the Grid model, which is DEFINED over expressions lifted from the source on every run "
+                 "(Generated/GridSrc.lean: lattice recursion, search loop, truncation, scaling, clipping, basis map order, "
+                 "relabelling, trade-off loss, arg-min, delegation) + compiled-driver correspondence with GridSearch.fit/predict "
+                 "driven through an exact recording learner and with _GridGenerator alone")
+    level_text = ("Theorems (all inputs): the recursion of accumulate_integer_grid over the lifted expressions enumerates exactly "
+                  "the sign-restricted L1 ball/sphere (sound+complete), duplicate-free, in strictly increasing lexicographic "
+                  "order (truncation keeps the least grid_size points), strictly growing in the radius (termination of the "
+                  "while-True search, least radius); the float starting point of the search is an input: from ANY start the loop "
+                  "stops at max(start, least radius), a start that does not exceed the exact value of the lifted expression "
+                  "(decidable predicate evaluated on the float estimate of every case) gives the SAME grid, any other start a "
+                  "coarser but still valid one; the mapped multipliers are grid_size many, non-negative, of L1 norm <= grid_limit "
+                  "(= grid_limit exactly when the norm is forced), pairwise distinct when every basis column is a distinct unit "
+                  "vector, also after a grid_offset shift; zero vector characterised; first-arg-min spec for any list of "
+                  "(objective, gamma) records, equal to a running arg-min, predict delegates to it; weighted 0/1 error on "
+                  "relabelled data = const - sum w_i h_i and the resulting arg-min equivalence. Tie: lifter (refuses unknown "
+                  "shapes; an edited expression re-checks or breaks the bridge lemmas) + GridSearch on generated data sets vs "
+                  "the compiled model started at the source's own float estimate (lambda_vecs_ incl. grid_offset, best_idx_, "
+                  "combined weights / relabelling / dummy rule seen by the learner) and a Fraction oracle of every clause.")
     design_ref = "DESIGN.md section 4, C09"
     quick_cases = 450
     thorough_cases = 12000
@@ -92,9 +205,13 @@ class CHECK(Check):
             "labels present), moments DP/TPR/FPR/EO/ERP with difference bound or ratio bound in {1/2,4/5,1} and BoundedGroupLoss"
             "(ZeroOneLoss|SquareLoss(0,1)), grid_size 2..60, grid_limit in {1/2,1,3/2,2,3,5}, constraint_weight dyadic in "
             "[0,1], exact learner over all 2^k labelings or the 2k threshold labelings, containers DataFrame/ndarray/list/"
-            "single-column frames; includes data where a group lacks a label; distinct = distinct case; non-trivial = grid "
-            "with >= 2 distinct trained labelings or >= 3 grid points")
-    explanation = ("theorems over Model/Grid.lean; the two hypotheses of the distinctness / L1 theorems (unitBasis, basisOK) are "
+            "single-column frames; grid_offset None (85%) or a dyadic Series over the constraint index; includes data where "
+            "a group lacks a label; 12% of the cases run _GridGenerator ALONE on unit bases (1..4 coordinates, any neg_allowed "
+            "pattern, forced or free L1 norm, grid_size 1..125); thorough adds the exhaustive enumeration of all patterns x "
+            "grid_size 1..100 (a test); distinct = distinct case; non-trivial = grid with >= 2 distinct trained labelings or "
+            ">= 3 grid points")
+    explanation = ("theorems over Model/Grid.lean (defined over Generated/GridSrc.lean); model-vs-oracle disagreements are "
+                   "HARNESS-ERROR only while the lifted fragments equal the pinned text, a broken tie otherwise; the two hypotheses of the distinctness / L1 theorems (unitBasis, basisOK) are "
                    "evaluated by the driver on the bases exported from every fitted estimator; GridSearch.fit returning None "
                    "is C19's business and ignored here")
     trusted = ("the reduction identity err + lambda.gamma = const - (1/n) sum w_i h_i is C07's theorem; here it is checked "
@@ -102,11 +219,125 @@ class CHECK(Check):
                "pandas DataFrame.dot / index alignment inside GridSearch (checked through the correspondence only)",
                "harness/learners.py ExactLearner is the 'exact cost-sensitive learner' the property is conditional on")
     assumptions = ("both labels and at least two groups occur in the data", "grid_size >= 2, grid_limit > 0",
-                   "grid and grid_offset arguments are left at None")
+                   "the grid argument is left at None; grid_offset is None or a Series over the constraint index "
+                   "(then only count, distinctness, relabelling, best response, records, selection and delegation are "
+                   "checked: non-negativity and the L1 bound are stated for the unshifted grid)")
+
+    # ---------------------------------------------------------------- _GridGenerator alone (unit bases)
+    @staticmethod
+    def _gen_bases(d):
+        idx = [f"p{j}" for j in range(d)] + [f"m{j}" for j in range(d)]
+        pos = [[1 if (i == j) else 0 for j in range(d)] for i in range(d)] + [[0] * d for _ in range(d)]
+        neg = [[0] * d for _ in range(d)] + [[1 if (i == j) else 0 for j in range(d)] for i in range(d)]
+        return idx, pos, neg
+
+    def _gen_impl(self, case):
+        from fairlearn.reductions._grid_search._grid_generator import _GridGenerator
+        na, d = case["na"], len(case["na"])
+        idx, pos, neg = self._gen_bases(d)
+        pos_b = pd.DataFrame([[float(v) for v in r] for r in pos], index=idx, columns=range(d))
+        neg_b = pd.DataFrame([[float(v) for v in r] for r in neg], index=idx, columns=range(d))
+        try:
+            g = _GridGenerator(case["grid_size"], float(F(case["grid_limit"])), pos_b, neg_b,
+                               pd.Series([bool(b) for b in na], index=range(d)), bool(case["force"])).grid
+        except ZeroDivisionError:
+            return {"exc": "ZeroDivisionError"}
+        return {"lam": [[float(v) for v in g[c].tolist()] for c in g.columns], "rows": [str(i) for i in g.index]}
+
+    def _gen_lines(self, case, o):
+        na, d = case["na"], len(case["na"])
+        _, pos, neg = self._gen_bases(d)
+        n0 = float_estimate(na, case["force"], case["grid_size"])
+        head = f"{proto.lst(na, proto.b)} {proto.b(case['force'])} {case['grid_size']}"
+        return [f"grid.lambdas0 {head} {proto.rat(F(case['grid_limit']))} {proto.mat(pos)} {proto.mat(neg)} "
+                f"{n0 if n0 is not None else 0} {proto.lst([0] * (2 * d))}",
+                f"grid.estimate {head} {n0 if n0 is not None else 0}"]
+
+    def _gen_judge(self, case, o, mo):
+        probs = []
+        na, d, gsz, limit = case["na"], len(case["na"]), case["grid_size"], F(case["grid_limit"])
+        idx, pos, neg = self._gen_bases(d)
+        n_or, lam_or = ro.grid_lambdas(na, case["force"], gsz, limit, [[F(v) for v in r] for r in pos],
+                                       [[F(v) for v in r] for r in neg])
+        where = f"_GridGenerator(grid_size={gsz}, grid_limit={limit}, neg_allowed={na}, force_L1_norm={case['force']})"
+        if "exc" in o:
+            if lam_or is not None:
+                probs.append(Problem("property", f"{where} raised {o['exc']}", "C09.grid_exists"))
+        else:
+            lam = o["lam"]
+            if o["rows"] != idx:
+                probs.append(Problem("correspondence", f"{where}: grid index {o['rows']}", "C09.index"))
+            if len(lam) != gsz:
+                probs.append(Problem("property", f"{where}: {len(lam)} vectors", "C09.grid_length"))
+            if len({tuple(round(v, 9) for v in c) for c in lam}) != len(lam):
+                probs.append(Problem("property", f"{where}: duplicate multiplier vectors", "C09.grid_distinct"))
+            for i, c in enumerate(lam):
+                l1 = sum(abs(v) for v in c)
+                if min(c) < -TOL or l1 > float(limit) + TOL or (case["force"] and abs(l1 - float(limit)) > TOL):
+                    probs.append(Problem("property", f"{where}: vector {i} = {c} (negative entry, L1 norm > grid_limit, or L1 "
+                                                     f"norm != grid_limit although forced)", "C09.grid_nonneg / grid_l1_le_limit"))
+                    break
+            if lam_or is None or len(lam_or) != len(lam) or any(
+                    abs(a - float(b_)) > TOL for cm, ci in zip(lam_or, lam) for b_, a in zip(cm, ci)):
+                probs.append(Problem("correspondence", f"{where}: grid differs from the documented one (n_units={n_or})",
+                                     "C09.grid (lattice order / scale / basis map)"))
+        if mo is not None and len(mo) == 2:
+            head = mo[0].split(" ")
+            if head[0].startswith("err") or head[0] == "bad-op":
+                if (lam_or is not None) or head[0] == "bad-op":
+                    probs.append(Problem(mo_kind(), f"{where}: model {mo[0]}, oracle n_units={n_or}", mo_rel("C09.grid_exists")))
+                if "exc" not in o:
+                    probs.append(Problem("correspondence", f"{where}: model {mo[0]} but the implementation returns a grid",
+                                         "C09.grid_exists"))
+            else:
+                n_m, no_over, lam_m = int(head[0]), head[1] == "1", proto.p_mat(head[2])
+                if lam_or is None or n_m != n_or or lam_m != lam_or:
+                    probs.append(Problem(mo_kind() if no_over else "correspondence",
+                                         f"{where}: model grid (n={n_m}) != documented grid (n={n_or})",
+                                         mo_rel("C09.estimate_harmless / source_lattice_eq")))
+                if "lam" in o and (len(lam_m) != len(o["lam"]) or any(
+                        abs(a - float(b_)) > TOL for cm, ci in zip(lam_m, o["lam"]) for b_, a in zip(cm, ci))):
+                    probs.append(Problem("correspondence", f"{where}: grid differs from the model started at the source's float "
+                                                           f"estimate (model n_units={n_m})", "C09.grid (search from the estimate)"))
+            est = mo[1].split(" ")
+            if len(est) == 3:
+                if est[0] != "1":
+                    probs.append(Problem("correspondence", f"{where}: the float estimate "
+                                                           f"{float_estimate(na, case['force'], gsz)} exceeds the exact value of the "
+                                                           f"lifted expression", "C09.estimate_harmless hypothesis"))
+                if n_or is not None and int(est[1]) != n_or:
+                    probs.append(Problem(mo_kind(), f"{where}: model least radius {est[1]} != oracle {n_or}",
+                                         mo_rel("C09.nUnits_least")))
+                n0 = float_estimate(na, case["force"], gsz) or 0
+                if n_or is not None and int(est[2]) != max(n0, int(est[1])):
+                    probs.append(Problem("harness", f"{where}: searchFrom gives {est[2]}, max(n0, least) = {max(n0, int(est[1]))}"))
+        return probs
+
+    def _gen_case(self, rng):
+        d = rng.choice([1, 2, 2, 3, 3, 4])
+        force = rng.random() < 0.4 and d >= 2
+        return {"kind": "gen", "na": [rng.randint(0, 1) for _ in range(d)], "force": force,
+                "grid_size": rng.choice([1, 2, 3, 4, 5, 7, 8, 9, 10, 16, 25, 27, 31, 40, 60, 64, 81, 100, 125]),
+                "grid_limit": rng.choice(["1/2", "1", "2", "3"])}
+
+    def exhaustive(self, tier):
+        """TEST (not a proof): every (neg_allowed, force_L1_norm) pattern for 1..4 coordinates x every grid_size 1..100:
+        the real _GridGenerator against the model started at the source's float estimate, the documented grid, and the
+        no-overshoot predicate of the estimate"""
+        for d in range(1, 5):
+            for force in (False, True):
+                if force and d < 2:
+                    continue
+                for na in itertools.product((0, 1), repeat=d):
+                    for gsz in range(1, 101):
+                        yield {"kind": "gen", "na": list(na), "force": force, "grid_size": gsz, "grid_limit": "2"}
 
     # ---------------------------------------------------------------- generation
     def generate(self, rng, tier):
         while True:
+            if rng.random() < 0.12:
+                yield self._gen_case(rng)
+                continue
             n = rng.choice([4, 5, 6, 6, 7, 8, 8, 9, 10, 12, 14])
             k = rng.choice([2, 3, 3, 4])
             ng = rng.choice([2, 2, 3, 3, 4])
@@ -141,9 +372,18 @@ class CHECK(Check):
                     "container": rng.choice(["df", "df", "np", "list", "frame"])}
             if moment == "BGL":
                 case["loss"] = rng.choice(["zero_one", "square"])
+            if rng.random() < 0.15:
+                case["offset"] = [rng.choice(["0", "1/4", "1/2", "1", "3/4", "1/8", "2"]) for _ in range(rng.choice([1, 3, 5]))]
             yield case
 
     def shrink(self, case):
+        if case.get("kind") == "gen":
+            for g_ in sorted({1, 2, case["grid_size"] // 2, case["grid_size"] - 1}):
+                if 1 <= g_ < case["grid_size"]:
+                    yield dict(case, grid_size=g_)
+            if len(case["na"]) > 1:
+                yield dict(case, na=case["na"][:-1], force=case["force"] and len(case["na"]) > 2)
+            return
         n = len(case["x"])
         for gs_ in sorted({2, 3, case["grid_size"] // 2, case["grid_size"] - 1}):
             if 2 <= gs_ < case["grid_size"]:
@@ -154,6 +394,8 @@ class CHECK(Check):
                 c[key] = case[key][:i] + case[key][i + 1:]
             if len(c["x"]) >= 3 and len(set(c["y"])) == 2 and len(set(c["g"])) >= 2 and len(set(c["x"])) >= 2:
                 yield c
+        if case.get("offset"):
+            yield {k: v for k, v in case.items() if k != "offset"}
         if case.get("container") != "df":
             yield dict(case, container="df")
         if case["cw"] != "1/2":
@@ -165,13 +407,21 @@ class CHECK(Check):
 
     # ---------------------------------------------------------------- implementation
     def impl(self, case):
+        if case.get("kind") == "gen":
+            return self._gen_impl(case)
         import fairlearn.reductions as red
         from sklearn.dummy import DummyClassifier
         tag = f"c09-{os.getpid()}-{next(_COUNTER)}"
         X, y, sf = containers(case)
         moment = mk_moment(case)
+        grid_offset = None
+        if case.get("offset"):
+            probe = mk_moment(case)
+            probe.load_data(X, y, sensitive_features=sf)
+            keys = [idx_key(t) for t in probe.index]
+            grid_offset = pd.Series([float(v) for v in offset_of(case, keys)], index=probe.index)
         gs = red.GridSearch(ExactLearner(case["kind"], tag), moment, constraint_weight=float(F(case["cw"])),
-                            grid_size=case["grid_size"], grid_limit=float(F(case["grid_limit"])))
+                            grid_size=case["grid_size"], grid_limit=float(F(case["grid_limit"])), grid_offset=grid_offset)
         try:
             gs.fit(X, y, sensitive_features=sf)
         except (ZeroDivisionError, ValueError) as e:
@@ -218,17 +468,23 @@ class CHECK(Check):
         idx = [tuple(k) for k in o["lam_index"]]
         lams = [{k: F(v) for k, v in zip(idx, col)} for col in o["lam"]]
         ws = []
+        self._parts = []
         for lam in lams:
             if span:
                 w = P.bgl_weights(lam)
                 ws.append([wi if yi == 1 else -wi for wi, yi in zip(w, case["y"])])
+                self._parts.append((ws[-1], [F(0)] * P.n))
             else:
                 ws.append(P.signed_weights(lam))
+                cwt = P.signed_weights(lam, with_objective=False)
+                self._parts.append((cwt, [a - b_ for a, b_ in zip(ws[-1], cwt)]))
         objs = [P.objective(p["train"]) for p in o["predictors"]]
         gams = [P.gamma(p["train"]) for p in o["predictors"]]
         return P, span, idx, lams, ws, objs, gams
 
     def lines(self, case, o):
+        if case.get("kind") == "gen":
+            return [] if "crash" in o else self._gen_lines(case, o)
         if "crash" in o or "exc" in o:
             return []
         P, span, idx, lams, ws, objs, gams = self._exact(case, o)
@@ -239,12 +495,28 @@ class CHECK(Check):
         for w, p in zip(ws, o["predictors"]):
             ls.append(f"grid.relabel {proto.lst(w)}")
             ls.append(f"grid.cost {proto.lst(w)} {proto.lst(p['train'])}")
+        # -- source-following ops (lifted estimate as start of the search, offset, whole-loop selection, weights)
+        n0 = float_estimate(o["neg_allowed"], o["force"], case["grid_size"])
+        off = offset_of(case, o["lam_index"]) or [F(0)] * len(o["lam_index"])
+        ls.append(f"grid.lambdas0 {proto.lst(o['neg_allowed'], proto.b)} {proto.b(o['force'])} {case['grid_size']} "
+                  f"{proto.rat(F(case['grid_limit']))} {proto.mat(o['pos_rows'])} {proto.mat(o['neg_rows'])} "
+                  f"{n0 if n0 is not None else 0} {proto.lst(off)}")
+        ls.append(f"grid.select2 {proto.rat(F(case['cw']))} {proto.lst(objs)} "
+                  f"{proto.mat([[gm[k] for k in P.index] for gm in gams])}")
+        for cwt, owt in self._parts:
+            ls.append(f"grid.weights {proto.b(span)} {proto.lst(cwt)} {proto.lst(owt)}")
+        if self._parts:
+            ls.append(f"grid.fitloop {proto.b(span)} {proto.rat(F(case['cw']))} {proto.lst(self._parts[0][1])} "
+                      f"{proto.mat([c for c, _ in self._parts])} {proto.mat([p['train'] for p in o['predictors']])} "
+                      f"{proto.lst(objs)} {proto.mat([[gm[k] for k in P.index] for gm in gams])}")
         return ls
 
     # ---------------------------------------------------------------- judging
     def judge(self, case, o, mo):
         if "crash" in o:
             return [Problem("correspondence", f"implementation crashed: {o}", "impl-total")]
+        if case.get("kind") == "gen":
+            return self._gen_judge(case, o, mo)
         if "exc" in o:
             zero = self._zero_weight_points(case)
             if o["exc"] == "ValueError" and zero:
@@ -263,7 +535,8 @@ class CHECK(Check):
         if sorted(map(tuple, o["lam_index"])) != sorted(P.index) and not span:
             probs.append(Problem("correspondence", f"multiplier index {o['lam_index']} != observed (sign,event,group) "
                                                    f"entries {P.index}", "C09.index"))
-        for i, col in enumerate(o["lam"]):
+        off = offset_of(case, o["lam_index"])
+        for i, col in enumerate(o["lam"] if off is None else []):
             if min(col) < -TOL:
                 probs.append(Problem("property", f"multiplier vector {i} has a negative entry {min(col)}", "C09.grid_nonneg"))
             if sum(abs(v) for v in col) > float(limit) + TOL:
@@ -349,12 +622,15 @@ class CHECK(Check):
                                                        "lower-dimensional description", "C09.basis"))
             head = mo[0].split(" ")
             if head[0].startswith("err") or head[0] == "bad-op":
-                probs.append(Problem("harness" if lam_or is not None else "correspondence",
-                                     f"model grid: {mo[0]}; oracle n_units={n_or}", "C09.grid_exists"))
+                probs.append(Problem(mo_kind() if lam_or is not None else "correspondence",
+                                     f"model grid: {mo[0]}; oracle n_units={n_or}", mo_rel("C09.grid_exists")))
             else:
                 n_m, unit_b, basis_ok, lam_m = int(head[0]), head[1] == "1", head[2] == "1", proto.p_mat(head[3])
                 if n_m != n_or or lam_m != lam_or:
-                    probs.append(Problem("harness", f"model grid (n={n_m}) != oracle grid (n={n_or})"))
+                    probs.append(Problem(mo_kind(), f"model grid (n={n_m}) != oracle grid (n={n_or})",
+                                         mo_rel("C09.source_lattice_eq / grid (documented lattice, scaling, basis map)")))
+                if off is not None:
+                    lam_m = [[a + b_ for a, b_ in zip(cm, off)] for cm in lam_m]
                 if len(lam_m) != len(o["lam"]) or any(
                         abs(a - float(b_)) > TOL for cm, ci in zip(lam_m, o["lam"]) for b_, a in zip(cm, ci)):
                     probs.append(Problem("correspondence", f"lambda_vecs_ differ from the model grid (model n_units={n_m})",
@@ -370,10 +646,11 @@ class CHECK(Check):
                                                            "group) pair occurs", "C09.grid_distinct hypothesis"))
             sel = mo[1].split(" ")
             if sel[0] == "bad-op":
-                probs.append(Problem("harness", "model select: bad-op"))
+                probs.append(Problem(mo_kind(), "model select: bad-op", mo_rel("C09.select_spec")))
             else:
                 if proto.p_list(sel[1]) != losses or int(sel[0]) != losses.index(min(losses)):
-                    probs.append(Problem("harness", f"model select {sel[0]} != oracle {losses.index(min(losses))}"))
+                    probs.append(Problem(mo_kind(), f"model select {sel[0]} != oracle {losses.index(min(losses))}",
+                                         mo_rel("C09.tradeoff_spec / argminFirst_spec")))
                 if int(sel[0]) != b:
                     # exact ties may be broken by float rounding: replay the float computation on the recorded values
                     fl = [(1.0 - float(cw)) * ob + float(cw) * max(g_) for ob, g_ in zip(o["objectives"], o["gammas"])]
@@ -386,9 +663,84 @@ class CHECK(Check):
                 rl = mo[2 + 2 * i].split(" ")
                 yr, wr = ro.relabel(w)
                 if proto.p_list(rl[0]) != yr or proto.p_list(rl[1]) != wr:
-                    probs.append(Problem("harness", f"model relabel != oracle relabel at grid point {i}"))
+                    probs.append(Problem(mo_kind(), f"model relabel != oracle relabel at grid point {i}",
+                                         mo_rel("C09.best_response (relabelling)")))
                 if proto.p_rat(mo[3 + 2 * i]) != costs[i][0]:
-                    probs.append(Problem("harness", f"model cost != oracle cost at grid point {i}"))
+                    probs.append(Problem(mo_kind(), f"model cost != oracle cost at grid point {i}",
+                                         mo_rel("C09.best_response")))
+            probs += self._judge_source_ops(case, o, mo[2 + 2 * len(o["predictors"]):], lam_or,
+                                            n_or, ws, losses, b)
+        return probs
+
+    def _judge_source_ops(self, case, o, mo, lam_or, n_or, ws, losses, b):
+        """the ops that follow the lifted source text: search started at the source's float estimate + offset,
+        selection over the whole list of records + delegation, combined weights / relabelling / dummy rule"""
+        probs = []
+        if len(mo) < 2:
+            return [Problem(mo_kind(), "driver returned too few lines for the source-following ops")]
+        off = offset_of(case, o["lam_index"]) or [F(0)] * len(o["lam_index"])
+        head = mo[0].split(" ")
+        if head[0].startswith("err") or head[0] == "bad-op":
+            probs.append(Problem(mo_kind() if lam_or is not None else "correspondence",
+                                 f"model grid from the float estimate: {mo[0]}", mo_rel("C09.search_from_any_start")))
+        else:
+            n_m, no_over, lam_m = int(head[0]), head[1] == "1", proto.p_mat(head[2])
+            if not no_over:
+                probs.append(Problem("correspondence",
+                                     f"the source's float estimate n0={float_estimate(o['neg_allowed'], o['force'], case['grid_size'])} "
+                                     f"exceeds the exact value of the lifted expression (grid_size={case['grid_size']}, "
+                                     f"neg_allowed={o['neg_allowed']}, force={o['force']})", "C09.estimate_harmless hypothesis"))
+            if lam_or is not None:
+                want = [[a + b_ for a, b_ in zip(col, off)] for col in lam_or]
+                if n_m != n_or or lam_m != want:
+                    probs.append(Problem(mo_kind() if no_over else "correspondence",
+                                         f"model grid started at the float estimate (n={n_m}) != documented grid (n={n_or}) "
+                                         f"+ offset", mo_rel("C09.estimate_harmless / grid_offset_distinct")))
+            if len(lam_m) != len(o["lam"]) or any(
+                    abs(a - float(b_)) > TOL for cm, ci in zip(lam_m, o["lam"]) for b_, a in zip(cm, ci)):
+                probs.append(Problem("correspondence", f"lambda_vecs_ differ from the model grid started at the source's "
+                                                       f"float estimate (model n_units={n_m})",
+                                     "C09.grid (search from the estimate, scale, basis map, offset)"))
+        s2 = mo[1].split(" ")
+        if s2[0] == "bad-op" or len(s2) != 3:
+            probs.append(Problem(mo_kind(), f"model select2: {mo[1]}", mo_rel("C09.select_spec")))
+        else:
+            want = losses.index(min(losses))
+            if [int(t) for t in s2] != [want] * 3:
+                probs.append(Problem(mo_kind(), f"model select/runningArgmin/predictWith {s2} != oracle first arg-min {want}",
+                                     mo_rel("C09.select_spec / runningArgmin_eq / predict_delegates")))
+        for i, (w, p) in enumerate(zip(ws, o["predictors"])):
+            if 2 + i >= len(mo):
+                break
+            t = mo[2 + i].split(" ")
+            if t[0] == "bad-op" or len(t) != 4:
+                probs.append(Problem(mo_kind(), f"model weights: {mo[2 + i]}", mo_rel("C09.best_response (weights)")))
+                continue
+            yr, wr = ro.relabel(w)
+            if proto.p_list(t[0]) != w or proto.p_list(t[1]) != yr or proto.p_list(t[2]) != wr \
+                    or (t[3] == "1") != (len(set(yr)) == 1):
+                probs.append(Problem(mo_kind(), f"model combined weights / relabelling / dummy rule != oracle at grid point {i}",
+                                     mo_rel("C09.best_response (combine, relabel, useDummy)")))
+            elif case["moment"] != "BGL" and all(x > TOL for x in wr) and (t[3] == "1") != p["dummy"]:
+                probs.append(Problem("correspondence", f"grid point {i}: DummyClassifier used = {p['dummy']} but the relabelled "
+                                                       f"data has {len(set(yr))} distinct label(s)", "C09.relabel (dummy rule)"))
+        # the whole loop (fitLoop) replayed with the recorded labelings as the base learner
+        k = 2 + len(o["predictors"])
+        robust = case["moment"] != "BGL" and all(abs(x) > TOL for w in ws for x in w)
+        if robust and k < len(mo):
+            t = mo[k].split(" ")
+            want = losses.index(min(losses))
+            if t[0] in ("bad-op", "err:select") or len(t) != 3:
+                probs.append(Problem(mo_kind(), f"model fitLoop: {mo[k][:80]}", mo_rel("C09.fit_spec")))
+            else:
+                trained = [[int(v) for v in r.split(",")] for r in t[1].split(";")]
+                if trained != [p["train"] for p in o["predictors"]]:
+                    probs.append(Problem("correspondence", "the labelings trained by the model loop (dummy rule + recorded "
+                                                           "learner) differ from the predictors' training predictions",
+                                         "C09.fit_spec (trainAt)"))
+                elif int(t[0]) != want:
+                    probs.append(Problem(mo_kind(), f"model fitLoop best index {t[0]} != oracle first arg-min {want}",
+                                         mo_rel("C09.fit_spec (selection)")))
         return probs
 
     def _zero_weight_points(self, case):
@@ -397,6 +749,9 @@ class CHECK(Check):
         lams = P.grid(case["grid_size"], F(case["grid_limit"]))
         if not lams:
             return []
+        off = offset_of(case, [list(k) for k in P.index])
+        if off is not None:
+            lams = [{k: v + d for (k, v), d in zip(lam.items(), off)} for lam in lams]
         out = []
         for i, lam in enumerate(lams):
             w = P.bgl_weights(lam) if case["moment"] == "BGL" else P.signed_weights(lam)
@@ -405,6 +760,8 @@ class CHECK(Check):
         return out
 
     def known(self, case, problem, entries):
+        if case.get("kind") == "gen":
+            return None
         if problem.relation == "C09.zero_weights" and self._zero_weight_points(case):
             for e in entries:
                 if e.get("predicate") == "all_zero_signed_weights":
@@ -417,11 +774,20 @@ class CHECK(Check):
         return None
 
     def signature(self, case, o):
+        if case.get("kind") == "gen":
+            gsz = case["grid_size"]
+            tags = ["kind=generator-only", f"gen.dim={len(case['na'])}", "gen.force_L1" if case["force"] else "gen.free_L1",
+                    f"gen.neg_allowed={sum(case['na'])}/{len(case['na'])}",
+                    "gen.grid_size=" + ("1" if gsz == 1 else "2-9" if gsz < 10 else "10-59" if gsz < 60 else "60+")]
+            if "exc" in o:
+                tags.append("gen.exc=" + o["exc"])
+            return (repr(sorted(case.items())), gsz >= 2, tags)
         tags = [f"moment={case['moment']}", f"rows={len(case['x'])}", f"groups={len(set(case['g']))}",
                 f"values={len(set(case['x']))}", f"kind={case['kind']}", f"container={case.get('container')}",
                 "bound=ratio" if case.get("ratio") else "bound=diff",
                 "grid_size=" + ("2-5" if case["grid_size"] <= 5 else "6-15" if case["grid_size"] <= 15 else "16-60"),
-                "cw=" + ("0" if case["cw"] == "0" else "1" if case["cw"] == "1" else "mid")]
+                "cw=" + ("0" if case["cw"] == "0" else "1" if case["cw"] == "1" else "mid"),
+                "grid_offset=" + ("series" if case.get("offset") else "None")]
         nontriv = case["grid_size"] >= 3
         if "predictors" in o:
             tags.append(f"dim={len(o['neg_allowed'])}")
